@@ -43,6 +43,7 @@ def part(ctx):
         h.op_add(src, h.batch(src, rng.choice([1, 2, 3, 4]), own=False))           # casting addition (lossless kinds)
         d = h.pool[src]
         if d.fp_num == 0:
+            hists['c17db-%d' % i] = h               # the (refused / empty) addition is still compared with the model
             continue
         sk = dbgen.kind_of_type(d.fp_type)
         sup, vals = _support(d)
@@ -197,6 +198,7 @@ def part_ext(ctx):
                 bump('source/+float-fingerprints-with-full-mantissa-values')
         d = h.pool[src]
         if d.fp_num == 0:
+            hists['c17dbx-%d' % i] = h               # the (refused / empty) addition is still compared with the model
             continue
         sk = dbgen.kind_of_type(d.fp_type)
         d.name = rng.choice([None, 'db', 'my db'])             # the database's own name (not part of the model's state) must be carried too
